@@ -413,7 +413,8 @@ def breadth_files(seed):
     """The un-fixed rule test inputs (one shape per rule), in a seeded order."""
     import random
 
-    fs = sorted(p for p, s in workload.corpus() if os.path.basename(p).startswith("rule_") and p.endswith("_test_input.vhd") and s <= 20000)
+    # rule_<nnn>_test_input.vhd plus the un-fixed variants (rule_400_test_input_smart_tabs.vhd ...)
+    fs = sorted(p for p, s in workload.corpus() if os.path.basename(p).startswith("rule_") and "test_input" in os.path.basename(p) and ".fixed" not in os.path.basename(p) and s <= 20000)
     random.Random(H(seed, "breadth")).shuffle(fs)
     return fs
 
@@ -464,6 +465,16 @@ def run_breadth(job, env):
             if o:
                 d["base_config"] = {"rule": {focus: o}}
                 d["meta"]["focus_options"] = o
+        if fr and b"\t" in workload.read(p):
+            # tabs are measured with the rule's own indent_size: give every rule of the focus rule's
+            # family (shared base class or group) a tab width of its own, so that anything one rule
+            # remembers about a token cannot pass for another rule's measurement
+            fam = [r for r in runner.RULES if r[1] != 0 and r[0] != focus and (set(r[7]) & set(fr[0][7]) or set(r[8]) & set(fr[0][8]))]
+            bc = d["base_config"] or {"rule": {}}
+            for r in fam:
+                bc["rule"].setdefault(r[0], {})["indent_size"] = prng.choice([2, 3, 4, 8])
+            d["base_config"] = bc
+            d["meta"]["family_indent_sizes"] = len(fam)
         if fr and fr[0][1] != 0:
             ph, sub = fr[0][1], fr[0][2]
             if sub > min(r[2] for r in runner.RULES if r[1] == ph):
